@@ -70,6 +70,9 @@ pub struct HistStep {
     /// per link: (recv_age, proof_age) stamped before that select (None = keep)
     pub stamps: Vec<(Option<u64>, Option<u64>)>,
     pub guard_on: bool,
+    /// per link: backlog change before that select through real ops: 1 = drained by a cumulative ACK,
+    /// 2 = loaded with 40 more registered packets
+    pub backlog: Vec<u8>,
 }
 
 pub struct Scenario {
@@ -344,7 +347,8 @@ pub fn gen_scenario(rng: &mut Rng, opts: &GenOpts) -> Scenario {
                 stamps.push((r, p));
             }
             let guard_on = rng.chance(9, 10);
-            hist.push(HistStep { before, stamps, guard_on });
+            let backlog: Vec<u8> = (0..n).map(|_| match rng.below(8) { 0 | 1 => 1, 2 => 2, _ => 0 }).collect();
+            hist.push(HistStep { before, stamps, guard_on, backlog });
             before = before.saturating_sub(1 + rng.below(before.max(2) / 2 + 1));
             if before == 0 {
                 break;
@@ -360,6 +364,18 @@ pub fn gen_scenario(rng: &mut Rng, opts: &GenOpts) -> Scenario {
                     if let Some(a) = p {
                         c.last_ack_or_rtt_sample_ms = t.saturating_sub(*a).max(1);
                     }
+                }
+            }
+            for (li, c) in conns.iter_mut().enumerate() {
+                match h.backlog.get(li).copied().unwrap_or(0) {
+                    1 => c.handle_srt_ack(i32::MAX - 8, t),
+                    2 => {
+                        let base = 2_000_000 + (li as i32) * 100_000 + (h.before as i32 % 1000) * 50;
+                        for s in 0..40 {
+                            c.register_packet(base + s, t);
+                        }
+                    }
+                    _ => {}
                 }
             }
             let mut hc = cfg;
